@@ -1,9 +1,11 @@
 #!/bin/bash
-# harness/seedbatch.sh <id>...   runs seedcheck for variants A and B of each id, appends to /tmp/seed/summary.txt
+# harness/seedbatch.sh <id>...   runs seedcheck for the variants ($VARIANTS, default "A B") of each id found under
+# $SEEDROOT (default /tmp/seed), appends one line per variant to $SEEDROOT/summary.txt
+ROOT=${SEEDROOT:-/tmp/seed}
 for id in "$@"; do
   for v in ${VARIANTS:-A B}; do
-    [ -d /tmp/seed/$id/$v ] || continue
-    /verif/harness/seedcheck.sh /tmp/seed/$id/$v $id-$v $id > /tmp/seed/$id-$v.log 2>&1
-    echo "$(grep -E 'SEEDCHECK .*(exit=|not confirmed|does not|FAIL)' /tmp/seed/$id-$v.log | tail -1) :: $(grep -m1 'violation:' /tmp/seed/$id-$v.log | cut -c1-220)" >> /tmp/seed/summary.txt
+    [ -d $ROOT/$id/$v ] || continue
+    /verif/harness/seedcheck.sh $ROOT/$id/$v $id-$v $id > $ROOT/$id-$v.log 2>&1
+    echo "$(grep -E 'SEEDCHECK .*(exit=|not confirmed|does not|FAIL)' $ROOT/$id-$v.log | tail -1) :: $(grep -m1 'violation:' $ROOT/$id-$v.log | cut -c1-220)" >> $ROOT/summary.txt
   done
 done
